@@ -19,6 +19,8 @@ use std::task::{Context, Poll};
 use tokio::io::{AsyncRead, ReadBuf};
 
 pub const CLASS_F5: &str = "buzhash-initial-repeat-quirk";
+/// cap on the explicit-state search per input (a correct chunker needs about |input| + 2 states)
+pub const MAX_STATES_PER_INPUT: u64 = 20_000;
 
 pub fn grid(ws: &[usize], maxes: &[usize], bitss: &[u32]) -> Vec<Cfg> {
     let mut v = vec![];
@@ -251,7 +253,17 @@ pub fn explore_reads<C>(
     let mut transitions = 0u64;
     let mut maxdepth = 0usize;
     let mut terminals = 0u64;
+    let mut violated = false;
     while let Some(hist) = q.pop_front() {
+        // one counter-example per input is enough, and a chunker whose state has become
+        // path-dependent makes the state space explode: stop at the first violation / at the cap
+        if violated {
+            break;
+        }
+        if states > MAX_STATES_PER_INPUT {
+            agg.add("bfs_capped_inputs", 1);
+            break;
+        }
         // recompute the state of hist (cheap) to know what is enabled
         let cur = run_script(mk, data, &hist);
         if cur.state.finished {
@@ -275,13 +287,15 @@ pub fn explore_reads<C>(
             let out = run_script(mk, data, &h2);
             transitions += 1;
             if let Some(e) = &out.error {
-                agg.viol("read-dependent-failure", || json!({"cfg": c.json(), "data": hex(data), "script": format!("{:?}", h2), "error": e}));
+                agg.viol("read-dependent-failure", || json!({"cfg": c.json(), "data": hex(&data[..data.len().min(4096)]), "data_len": data.len(), "script": format!("{:?}", h2), "error": e}));
+                violated = true;
                 continue;
             }
             let ok = if out.state.finished { out.chunks[..] == expect[..] } else { is_prefix(&out.chunks, expect) };
             if !ok {
+                violated = true;
                 agg.viol("read-dependent-chunking", || {
-                    json!({"cfg": c.json(), "data": hex(data), "script": format!("{:?}", h2),
+                    json!({"cfg": c.json(), "data": hex(&data[..data.len().min(4096)]), "data_len": data.len(), "script": format!("{:?}", h2),
                         "got": out.chunks.iter().map(|(o, b)| (*o, b.len())).collect::<Vec<_>>(),
                         "single_read": expect.iter().map(|(o, b)| (*o, b.len())).collect::<Vec<_>>()})
                 });
@@ -383,7 +397,7 @@ fn boundary_family(c: &Cfg) -> Vec<Vec<u8>> {
 
 pub fn run(rep: &mut Report) {
     let thorough = rep.thorough();
-    let (alpha, nmax): (Vec<u8>, usize) = if thorough { (vec![0x00, b'a', b'b', 0xff], 10) } else { (vec![0x00, 0x01, 0xff], 9) };
+    let (alpha, nmax): (Vec<u8>, usize) = if thorough { (vec![0x00, b'a', b'b', 0xff], 11) } else { (vec![0x00, 0x01, 0xff], 9) };
     let cfgs = if thorough { grid(&[1, 2, 3, 4], &[8, 12], &[1, 2, 3]) } else { grid(&[1, 2, 3, 4], &[8, 12], &[1, 2]) };
     rep.set("rule_alphabet", json!(alpha));
     rep.set("rule_max_len", json!(nmax));
@@ -513,7 +527,7 @@ pub fn run(rep: &mut Report) {
     }
 
     // ---- leg B: read independence, explicit-state
-    let bfs_nmax = if thorough { 8 } else { 6 };
+    let bfs_nmax = if thorough { 9 } else { 6 };
     let balpha: Vec<u8> = vec![0x00, 0x01, 0xff];
     let bcfgs: Vec<Cfg> = if thorough { cfgs.clone() } else { cfgs.iter().filter(|c| c.bits == 1 || c.algo == Algo::Fixed).cloned().collect() };
     let bcfgs_ref = &bcfgs;
@@ -574,7 +588,7 @@ pub fn run(rep: &mut Report) {
     rep.set("states", json!(states));
     rep.set("transitions", json!(transitions));
     rep.set("traces_validated_against_impl", json!(transitions));
-    rep.set("exhaustive", json!(true));
+    rep.set("exhaustive", json!(rep.agg.get("bfs_capped_inputs") == 0));
     rep.set("evaluations", json!(rep.agg.get("rule_cases") + transitions));
     rep.set("distinct_nontrivial", json!(rep.agg.distinct_count("cutlists")));
     rep.set(
@@ -589,6 +603,10 @@ pub fn replay(v: &serde_json::Value) -> bool {
     // re-run one case without the explorer; returns true if it still violates
     let c = Cfg::from_json(&v["cfg"]);
     let data = unhex(v["data"].as_str().unwrap());
+    if v["data_len"].as_u64().map(|n| n as usize > data.len()).unwrap_or(false) {
+        println!("replay: the input of this case ({} bytes) is a generated structured input that is not embedded in the replay file; re-run `./check C09 quick`", v["data_len"]);
+        return true;
+    }
     let mut agg = Agg::default();
     if v.get("script").is_some() {
         let all = |rem: usize| (1..=rem).collect::<Vec<usize>>();
